@@ -213,7 +213,8 @@ def rule_composition(chk: Check, model, rid: str, cv: CompiledView):
     chk.used(fi.qualname)
     conds = [e for e in rs.events if e.kind == "call" and e.name == "jax.lax.cond"]
     if len(conds) == 1:
-        pred = conds[0].term
+        from ..compiled import skip_condition
+        pred = skip_condition(conds[0].term)
         ups = [e for e in rs.events if e.kind == "call" and len(e.args) == 5 and mentions(e.args[1], "timings_eps")]
         ok = len(ups) == 1
         if ok:
